@@ -48,7 +48,7 @@ func specs(tier string) []spec {
 		// variant 1: transfers + contract call on A, different transfers + refund on B, B starts with a skipped slot
 		a := []ops.Op{{K: "T", A: 1, B: 2, V: 7}, {K: "Call", S: "stake", A: 3, V: 10}, M}
 		a = append(a, filler(d-1, 0)...)
-		b := []ops.Op{{K: "T", A: 4, B: 2, V: 9}, {K: "Call", S: "garbage", A: 0, B: 0, V: 3}, {K: "M", V: 1}}
+		b := []ops.Op{{K: "T", A: 4, B: 2, V: 9}, {K: "Call", S: "refund", A: 5}, {K: "M", V: 1}}
 		b = append(b, filler(d, 1)...)
 		out = append(out, spec{fmt.Sprintf("d%d/transfers-vs-refund", d), prefix, a, b})
 		// variant 2: A receives the prefix's send and changes a delegation (election weight); B leaves it pending, touches the same account differently
